@@ -7,7 +7,7 @@ RULE = ("family tls: a Server with a TLS configuration listening on the loopback
         "boundary class / with single bits inverted / followed by an HTTP request, x the way the client ends the connection (reset, close, "
         "wait). Over completed handshakes: C01-class requests with bodies, split at a random offset, each also sent to a plain server; one-shot "
         "clients (write + close at once) through a relay that coalesces the end of the handshake, the request and the close into one segment; "
-        "overlapping connections (2-4 clients connect first, then complete the handshake or send clear text and reset, in every order); non-trivial = distinct case")
+        "incomplete TLS configurations (chain without key, unloadable key, protocol only); overlapping connections (2-4 clients connect first, then complete the handshake or send clear text and reset, in every order); non-trivial = distinct case")
 ASSUMPTIONS = ["the TLS engine is OpenSSL behind QSslSocket", "certificate verification is off in the harness client (the test key pair is self-signed)"]
 TRUSTED = ["real loopback TCP and real timing; bounded waits in the harness", "judged by the extracted spec checker only (no model run: the engine is a parameter of the model)"]
 
@@ -66,3 +66,9 @@ def cases(tier, seed, ctx=None):
                 continue
             cls = [[1, R] if k else [0, rng.choice(clear)] for k in shape]
             yield ("tls", [3, cls, list(order)], "overlapping")
+    # incomplete TLS configurations (chain without key, key that failed to load, protocol only): still TLS-only
+    for cfg in (1, 2, 3):
+        for data in (b"GET / HTTP/1.1\r\nHost: h\r\n\r\n", b"POST /p HTTP/1.1\r\nContent-Length: 2\r\n\r\nhi", b"", b"\x16\x03\x01\x00\x05hello"):
+            for action in (0, 1, 2):
+                yield ("tls", [0, [0, data, -1, -1], action, cfg], "incomplete-config")
+        yield ("tls", [0, [1, b"", -1, -1], 2, cfg], "incomplete-config")
